@@ -1,7 +1,6 @@
 package main
 
 import (
-	"os"
 	"crypto/hmac"
 	"crypto/sha1"
 	"crypto/sha256"
@@ -10,6 +9,7 @@ import (
 	"encoding/hex"
 	"fmt"
 	"hash"
+	"os"
 	"strings"
 
 	"github.com/miekg/dns"
@@ -259,7 +259,7 @@ func runC11(c *Ctx) {
 		m.SetTsig(keyName, randCase(r, alg), fudge, ts)
 		tsr := m.Extra[len(m.Extra)-1].(*dns.TSIG)
 		if r.Chance(25) {
-			tsr.OrigId = uint16(r.U64())
+			tsr.OrigId = []uint16{0, 0, 1, 0xFFFF, uint16(r.U64())}[r.Intn(5)]
 		}
 		if r.Chance(10) {
 			tsr.Hdr.Ttl = uint32(r.Intn(5))
